@@ -8,7 +8,7 @@ import program
 
 # library models register themselves on import
 import models_core, models_iter, models_fmt, models_coll
-for _m in ('models_nom', 'models_io', 'models_tokio', 'models_misc'):
+for _m in ('models_nom', 'models_io', 'models_tokio', 'models_misc', 'models_more'):
     try:
         __import__(_m)
     except ImportError:
